@@ -30,7 +30,9 @@ Record Inv (st : qstate) : Prop := {
   (* no missed wake-up: when the consumer is parked and an entry is queued, either the
      notification is pending or the producer of the OLDEST queued entry has yet to write it *)
   i_wake : cst st = COut -> forall it, nth_error (items st) (popped st) = Some it ->
-           ev st > 0 \/ written it = false
+           ev st > 0 \/ written it = false;
+  (* between its wake-up and the moment it finds nothing, the consumer has not drained the notification *)
+  i_live : cst st = CRead \/ cst st = CGot -> ev st > 0
 }.
 
 Lemma inv_init progs : Inv (init progs).
@@ -41,6 +43,7 @@ Proof.
   - intros i p k H Hp. apply nth_error_In in H. apply in_map_iff in H. destruct H as [x [<- _]]. discriminate.
   - intros k it H. destruct k; discriminate.
   - intros _ it H. discriminate.
+  - intros [H|H]; discriminate.
 Qed.
 
 Lemma firstn_app_le' {A} (l : list A) x n : n <= length l -> firstn n (l ++ [x]) = firstn n l.
@@ -61,7 +64,7 @@ Proof.
   destruct (pc p) as [|k|k] eqn:Epc.
   - (* exchange *)
     destruct (todo p) as [|v vs] eqn:Et; [exact H|].
-    destruct H as [Ho Hp Hwl Hex Hln Hun Hwk].
+    destruct H as [Ho Hp Hwl Hex Hln Hun Hwk Hlv].
     constructor; cbn [items popped ev prods cst out].
     + rewrite firstn_app_le' by exact Hp. exact Ho.
     + rewrite app_length. cbn. lia.
@@ -91,8 +94,9 @@ Proof.
       * rewrite nth_app_old in Hn by exact Hk. apply Hwk; assumption.
       * rewrite nth_error_app2 in Hn by exact Hk.
         destruct (popped st - length (items st)) as [|d]; cbn in Hn; [inversion Hn; subst; right; reflexivity|destruct d; discriminate].
+    + exact Hlv.
   - (* link *)
-    destruct H as [Ho Hp Hwl Hex Hln Hun Hwk].
+    destruct H as [Ho Hp Hwl Hex Hln Hun Hwk Hlv].
     pose proof (Hex i p k Ep Epc) as Hk.
     constructor; cbn [items popped ev prods cst out].
     + rewrite (firstn_upd _ _ _ _ ival) by reflexivity. exact Ho.
@@ -134,8 +138,9 @@ Proof.
       * rewrite He, nth_upd_same in Hn. destruct (nth_error (items st) k) as [it0|] eqn:En; [|discriminate].
         cbn in Hn. inversion Hn; subst it. rewrite <- He in En. destruct (Hwk Hc it0 En); [left; assumption|right; assumption].
       * rewrite nth_upd_other in Hn by exact Hne. apply Hwk; assumption.
+    + exact Hlv.
   - (* notify *)
-    destruct H as [Ho Hp Hwl Hex Hln Hun Hwk].
+    destruct H as [Ho Hp Hwl Hex Hln Hun Hwk Hlv].
     destruct (Hln i p k Ep Epc) as [itk [Hnk Hlk]].
     constructor; cbn [items popped ev prods cst out].
     + rewrite (firstn_upd _ _ _ _ ival) by reflexivity. exact Ho.
@@ -162,6 +167,7 @@ Proof.
         { intros ->. rewrite Ep in Hj. inversion Hj; subst q. rewrite Epc in Hq. destruct Hq as [Hq|Hq]; inversion Hq. congruence. }
         exists j', q. rewrite nth_upd_other by assumption. split; assumption.
     + intros _ it _. left. lia.
+    + intros _. lia.
 Qed.
 
 Lemma firstn_S_nth {A} (l : list A) n x : nth_error l n = Some x -> firstn (S n) l = firstn n l ++ [x].
@@ -171,45 +177,89 @@ Proof.
   - rewrite (IH n H). reflexivity.
 Qed.
 
-Lemma inv_look st found : found <> COut -> Inv st -> cst st <> COut -> Inv (look st found COut).
+(* the second look of a pop: an entry -> [found] (not a state the liveness clause speaks of), nothing -> parked *)
+Lemma inv_look_park st found : found <> COut -> found <> CRead -> found <> CGot ->
+  Inv st -> cst st <> COut -> Inv (look st found COut).
 Proof.
-  intros Hf [Ho Hp Hwl Hex Hln Hun Hwk] Hc. unfold look.
+  intros Hf Hf1 Hf2 [Ho Hp Hwl Hex Hln Hun Hwk Hlv] Hc. unfold look.
   destruct (nth_error (items st) (popped st)) as [it|] eqn:En.
   - destruct (linked it) eqn:El.
     + constructor; cbn [items popped ev prods cst out]; try assumption.
       * rewrite (firstn_S_nth _ _ _ En), map_app, Ho. reflexivity.
       * assert (popped st < length (items st)) by (apply nth_error_Some; rewrite En; discriminate). lia.
       * intros Hcc. congruence.
+      * intros [Hcc|Hcc]; congruence.
     + constructor; cbn [items popped ev prods cst out]; try assumption.
-      intros _ it' Hn. rewrite En in Hn. inversion Hn; subst it'. right.
-      destruct (written it) eqn:Ew; [|reflexivity]. rewrite (Hwl _ _ En Ew) in El. discriminate.
+      * intros _ it' Hn. rewrite En in Hn. inversion Hn; subst it'. right.
+        destruct (written it) eqn:Ew; [|reflexivity]. rewrite (Hwl _ _ En Ew) in El. discriminate.
+      * intros [Hcc|Hcc]; discriminate.
   - constructor; cbn [items popped ev prods cst out]; try assumption.
-    intros _ it Hn. rewrite En in Hn. discriminate.
+    + intros _ it Hn. rewrite En in Hn. discriminate.
+    + intros [Hcc|Hcc]; discriminate.
+Qed.
+
+(* the first look of a pop: an entry is handed over with the notification untouched, nothing -> drain *)
+Lemma inv_look_first st : Inv st -> cst st = CRead -> Inv (look st CGot CDrain).
+Proof.
+  intros [Ho Hp Hwl Hex Hln Hun Hwk Hlv] Hc. unfold look.
+  pose proof (Hlv (or_introl Hc)) as Hev.
+  destruct (nth_error (items st) (popped st)) as [it|] eqn:En.
+  - destruct (linked it) eqn:El.
+    + constructor; cbn [items popped ev prods cst out]; try assumption.
+      * rewrite (firstn_S_nth _ _ _ En), map_app, Ho. reflexivity.
+      * assert (popped st < length (items st)) by (apply nth_error_Some; rewrite En; discriminate). lia.
+      * intros Hcc. discriminate.
+      * intros _. exact Hev.
+    + constructor; cbn [items popped ev prods cst out]; try assumption.
+      * intros Hcc. discriminate.
+      * intros [Hcc|Hcc]; discriminate.
+  - constructor; cbn [items popped ev prods cst out]; try assumption.
+    + intros Hcc. discriminate.
+    + intros [Hcc|Hcc]; discriminate.
 Qed.
 
 Lemma inv_cstep st : Inv st -> Inv (cstep st).
 Proof.
   intros H. unfold cstep. destruct (cst st) eqn:Ec.
-  - destruct (0 <? ev st); [|exact H].
-    destruct H as [Ho Hp Hwl Hex Hln Hun Hwk].
-    constructor; cbn [items popped ev prods cst out]; try assumption. intros Hcc. discriminate.
-  - destruct H as [Ho Hp Hwl Hex Hln Hun Hwk].
-    constructor; cbn [items popped ev prods cst out]; try assumption. intros Hcc. discriminate.
-  - apply inv_look; [discriminate|exact H|congruence].
+  - (* parked: woken only with the notification pending *)
+    destruct (Nat.ltb_spec 0 (ev st)) as [Hev|Hev]; [|exact H].
+    destruct H as [Ho Hp Hwl Hex Hln Hun Hwk Hlv].
+    constructor; cbn [items popped ev prods cst out]; try assumption; [intros Hcc; discriminate|intros _; exact Hev].
+  - (* drain *)
+    destruct H as [Ho Hp Hwl Hex Hln Hun Hwk Hlv].
+    constructor; cbn [items popped ev prods cst out]; try assumption; [intros Hcc; discriminate|intros [Hcc|Hcc]; discriminate].
+  - apply inv_look_first; assumption.
   - exact H.
+  - apply inv_look_park; [discriminate|discriminate|discriminate|exact H|congruence].
+  - (* the notification is written again *)
+    destruct H as [Ho Hp Hwl Hex Hln Hun Hwk Hlv].
+    constructor; cbn [items popped ev prods cst out]; try assumption; [intros Hcc; discriminate|intros _; lia].
+  - (* the caller pops again *)
+    destruct H as [Ho Hp Hwl Hex Hln Hun Hwk Hlv].
+    constructor; cbn [items popped ev prods cst out]; try assumption; [intros Hcc; discriminate|intros _; apply Hlv; right; exact Ec].
+Qed.
+
+(* the caller stops with an entry in hand: the notification is still pending *)
+Lemma inv_cstop st : Inv st -> Inv (cstop st).
+Proof.
+  intros H. unfold cstop. destruct (cst st) eqn:Ec; try exact H.
+  destruct H as [Ho Hp Hwl Hex Hln Hun Hwk Hlv].
+  constructor; cbn [items popped ev prods cst out]; try assumption.
+  - intros _ it _. left. apply Hlv. right. exact Ec.
+  - intros [Hcc|Hcc]; discriminate.
 Qed.
 
 Theorem inv_run : forall sched st, Inv st -> Inv (run sched st).
 Proof.
   induction sched as [|a sched IH]; intros st H; [exact H|].
-  cbn [run fold_left]. apply IH. destruct a; [apply inv_cstep|apply inv_pstep]; exact H.
+  cbn [run fold_left]. apply IH. destruct a; [apply inv_cstep|apply inv_cstop|apply inv_pstep]; exact H.
 Qed.
 
 (* at quiescence every pushed entry has been popped, in exchange order *)
 Theorem quiescent_all_popped st :
   Inv st -> quiescent st = true -> popped st = length (items st) /\ out st = map ival (items st).
 Proof.
-  intros [Ho Hp Hwl Hex Hln Hun Hwk] Hq. unfold quiescent in Hq.
+  intros [Ho Hp Hwl Hex Hln Hun Hwk Hlv] Hq. unfold quiescent in Hq.
   apply andb_true_iff in Hq. destruct Hq as [Hq1 Hq2].
   destruct (cst st) eqn:Ec; try discriminate. apply Nat.eqb_eq in Hq2.
   assert (Hpop : popped st = length (items st)).
